@@ -14,7 +14,8 @@ META = {
                    "Pending return lies on the timer's Pending edge (the deadline wakes the task: E-WAKER); (C19.3) cancellation by ownership - TimeoutFuture.inner is the inner future by value "
                    "and nothing is spawned from Timeout::call / poll, so expiry drops the inner work; (C19.4) the timeout layer is the outermost of the client stack and the error "
                    "constructor is Error::RequestTimeout; (C19.5) the clean-up performed when the inner future is dropped is decided under C03 / C04 (P10, P11, P14, P3) and is recorded "
-                   "here as an assumption.",
+                   "here as an assumption."
+                   " C19.2 is a decision table over (inner poll, timer poll) evaluated abstractly on the expanded unit; fields are identified by type.",
     "trusted_base": ["rustc type/borrow checker (ownership: dropping TimeoutFuture drops `inner`)", "tokio::time::sleep fires at its deadline and wakes the task"],
     "assumptions": ["pool clean-up on drop of a checkout / request is decided by the C03 and C04 checks (P10, P11, P14, P3); one defect is reported under one property"],
     "undecided": "elapsed time",
